@@ -54,6 +54,7 @@ static void out_raw(const char *s, size_t n) {
 }
 static void outf(const char *fmt, ...) {
 	char tmp[4096]; va_list ap; va_start(ap, fmt); int n = vsnprintf(tmp, sizeof tmp, fmt, ap); va_end(ap);
+	if (n < 0) n = 0; if ((size_t)n >= sizeof tmp) n = (int)sizeof tmp - 1;   /* vsnprintf returns the untruncated length */
 	pthread_mutex_lock(&out_mx); out_raw(tmp, (size_t)n); pthread_mutex_unlock(&out_mx);
 }
 static void out_hex(const char *tag, const uint8_t *b, int n) {
